@@ -59,6 +59,12 @@ public:
         void push(expression_t e) { data.push_back(e); }
         void pop() { data.pop_back(); }
         void pop(uint32_t n);
+        /** Removes everything above the lowest \a mark entries except the topmost \a keep. */
+        void drop_between(uint32_t mark, uint32_t keep)
+        {
+            if (data.size() > mark + keep)
+                data.erase(data.begin() + mark, data.end() - keep);
+        }
         uint32_t size() { return data.size(); }
     };
 
@@ -143,7 +149,7 @@ public:
 
     void handle_error(const TypeException&) override;
     void parse_begin() override;
-    void parse_end(bool success) override;
+    void parse_end(bool success, int results) override;
     void handle_warning(const TypeException&) override;
     void type_duplicate() override;
     void type_pop() override;
